@@ -139,7 +139,10 @@ NumUses == {"con_le", "con_ge", "con_eq", "con_range", "objmin", "objmax", "lcon
 HalfUses == {"lcon_lth", "iff_gth"}
 NoHalfOps == {"mul", "sqr", "pow3"}
 \* how a logical expression B is used
-LogUses == {"lcon", "lnot", "lor", "countcon", "ifobj", "liff", "shared"}
+\* sharednest / sharednestor / sharedroot / sharedrootnot: B occurs twice, and one occurrence is dissolved by the
+\* converter (an and nested in an and / an or nested in an or is inlined; a root-level conjunction is fixed true, a
+\* negated root-level disjunction fixed false) while the other one still needs B's defining constraint
+LogUses == {"lcon", "lnot", "lor", "countcon", "ifobj", "liff", "shared", "sharednest", "sharednestor", "sharedroot", "sharedrootnot"}
 
 NoCon == [lb |-> "-inf", ub |-> "inf", lin |-> <<>>, has |-> FALSE, e |-> N(0)]
 Con(lb, ub, e) == [lb |-> lb, ub |-> ub, lin |-> <<>>, has |-> TRUE, e |-> e]
@@ -178,6 +181,12 @@ LogModel(op, sh, pat, use) ==
        [] use = "ifobj" -> Model(pat, <<LinCon(1, "inf", << <<0, 1>>, <<1, 1>> >>)>>, <<>>, <<Obj(FALSE, O3(35, B, V(0), O2(0, V(1), N(1))))>>)
        [] use = "liff" -> Model(pat, <<>>, <<O2(73, B, O2(28, V(2), N(1)))>>, <<SumObj>>)
        [] use = "shared" -> Model(pat, <<>>, <<O2(20, B, O2(24, V(2), N(0))), O3(72, O2(28, V(2), N(1)), O1(34, B), N(1))>>, <<SumObj>>)
+       [] use = "sharednest" -> Model(pat, <<>>, <<O2(20, B, O2(23, V(2), N(0))),
+                                                   O2(20, O2(21, B, O2(28, V(2), N(1))), O2(24, V(1), N(0)))>>, <<SumObj>>)
+       [] use = "sharednestor" -> Model(pat, <<>>, <<O2(20, O2(21, B, O2(23, V(2), N(0))), O2(24, V(1), N(0))),
+                                                     O2(20, O2(20, B, O2(28, V(2), N(1))), O2(21, O2(24, V(1), N(0)), O2(23, V(2), N(0))))>>, <<SumObj>>)
+       [] use = "sharedroot" -> Model(pat, <<>>, <<O2(20, B, O2(23, V(2), N(0))), B>>, <<SumObj>>)
+       [] use = "sharedrootnot" -> Model(pat, <<>>, <<O2(20, B, O2(23, V(2), N(0))), O1(34, B)>>, <<SumObj>>)
 
 \* defined variables: d0 = E, used by a constraint, a logical constraint and the objective; d1 linear only
 DVModel(op, sh, pat, k) ==
